@@ -622,6 +622,9 @@ func (e *Engine) isKnown(label, cls string) bool {
 func (e *Engine) recordFinding(st *State, kind, label, msg, pos string, m map[string]uint64, neg *smt.Term) *Finding {
 	f := &Finding{Kind: kind, Label: label, Msg: msg, Pos: pos, Model: m, Vars: append([]NDVar(nil), st.Vars...),
 		Trace: append([]string(nil), st.Trace...), Sched: append([]int(nil), st.schedHist...), Stack: e.stack(st)}
+	if len(st.Threads) > 1 {
+		f.Stack = append(f.Stack, e.threadSummary(st)...)
+	}
 	if m != nil {
 		f.Notes = map[string]uint64{}
 		memo := map[int]uint64{}
@@ -913,3 +916,29 @@ type feasSorter struct {
 func (s *feasSorter) Len() int           { return len(s.f) }
 func (s *feasSorter) Less(i, j int) bool { return s.f[i] < s.f[j] }
 func (s *feasSorter) Swap(i, j int)      { s.f[i], s.f[j] = s.f[j], s.f[i]; s.m[i], s.m[j] = s.m[j], s.m[i] }
+
+func (e *Engine) threadSummary(st *State) []string {
+	var out []string
+	for _, th := range st.Threads {
+		status := [...]string{"runnable", "blocked", "done"}[th.Status]
+		pos := ""
+		if len(th.Frames) > 0 {
+			fr := th.top()
+			pos = fr.Fn.String()
+			if fr.Block != nil && fr.Idx < len(fr.Block.Instrs) {
+				for j := fr.Idx; j >= 0; j-- {
+					if q := fr.Block.Instrs[j].Pos(); q.IsValid() {
+						pos += " " + e.pos(q)
+						break
+					}
+				}
+			}
+		}
+		why := ""
+		if th.Status == TBlocked {
+			why = " on " + th.BlockWhy
+		}
+		out = append(out, fmt.Sprintf("thread %d (%s): %s%s %s", th.ID, th.Name, status, why, pos))
+	}
+	return out
+}
